@@ -166,6 +166,14 @@ func Measure(repo string, seed int64, thorough bool, base string) (*MeasureResul
 			if a.Class != b.Class || a.Mut != b.Mut || a.Data != b.Data {
 				res.Unstable = append(res.Unstable, fmt.Sprintf("%s/%s: %s,%v,%v vs %s,%v,%v", in.ID, w,
 					a.Class, a.Mut, a.Data, b.Class, b.Mut, b.Data))
+				// a command whose effect on a leader depends on timing (FOLLOW starts an asynchronous session that may or
+				// may not have replaced the dataset when the measurement looks): the property is then demanded only for
+				// what BOTH runs showed - the weaker of the two measurements never asks for more than the statement
+				a.Mut = a.Mut && b.Mut
+				a.Data = a.Data && b.Data
+				if a.Class != b.Class {
+					a.Class = "err"
+				}
 			}
 			res.Cells = append(res.Cells, a)
 		}
